@@ -4,7 +4,7 @@ TAGS = {1: "Spawn", 2: "Handle", 3: "Drop", 4: "Upg", 5: "Op", 6: "Ret", 7: "Deq
         19: "ClientEnd", 20: "Foreign", 21: "Ctx", 22: "TimerReg", 23: "Tick", 24: "Exec", 25: "Yield", 26: "StreamEnd",
         27: "ItemBegin", 28: "ItemEnd", 29: "JoinNew", 30: "JoinDrop", 31: "ChildAdd", 32: "Bcast", 33: "Reg",
         34: "Subscribe", 35: "Deliver", 36: "PubCopy", 37: "Release", 38: "Query", 39: "Crash", 40: "StreamClose",
-        41: "BcastBegin", 42: "TimerSleep"}
+        41: "BcastBegin", 42: "TimerSleep", 43: "Probe", 44: "Broker", 45: "TopicOp", 46: "TopicRet"}
 HK = ["Addr", "Owning", "Sender", "Caller", "WAddr", "WSender", "WCaller"]
 OPK = ["send", "call", "ping", "stop", "restart", "halt", "await", "await_ref", "join", "consume", "force", "publish", "unsubscribe"]
 RK = ["Ok", "OkV", "Err", "None", "SomeV", "Bool", "Skip", "OptBool", "Inst"]
@@ -41,6 +41,14 @@ def pretty(e):
             elif len(a) > 2:
                 r += " " + str(a[2:])
             return f"Ret o{a[0]} {r}"
+        if t == 36:
+            return f"PubCopy topic{a[0]} clone o{a[1]} value {a[2]} of publication o{a[3]}" + (f" by broker a{a[4]} through h{a[5]}" if len(a) > 5 else "")
+        if t == 44:
+            return f"Broker a{a[0]} {g(['fan-out begins', 'holds', 'target', 'fan-out ends', 'subscribe', 'unsubscribe'], a[1])}" + (f" a{a[2]}" if a[1] in (1, 2, 4, 5) else "") + (f" h{a[3]}" if a[1] in (1, 2) else "")
+        if t == 45:
+            return f"TopicOp o{a[0]} client{a[1]} {g(['publish', 'subscribe', 'unsubscribe'], a[2])} topic{a[3]} " + (f"value {a[4]}" if a[2] == 0 else f"a{a[4]}")
+        if t == 46:
+            return f"TopicRet o{a[0]} {'Ok' if a[1] else 'Err'}"
         if t == 7:
             return f"Deq a{a[0]} {g(PK, a[1])}"
         if t == 8:
